@@ -57,8 +57,13 @@ func C17Selection() {
 	}
 	vrt.SlotText("sel", "S3") // Convergen is selected by its name whatever its doc says
 	want = append(want, "Main(*verifsk/sel.SrcC)")
+	if isMarker(vrt.SlotText("sel", "S5")) {
+		// an interface declared as `type Delta = interface{...}` is an interface declaration of the file
+		want = append(want, "Dee(*verifsk/sel.SrcA)")
+	}
 	if isMarker(vrt.SlotText("sel", "S1")) {
-		want = append(want, "Conv(*verifsk/sel.SrcG)")
+		// (incl. the methods Gamma has by embedding an unmarked interface of the same file)
+		want = append(want, "Conv(*verifsk/sel.SrcG) MixA(*verifsk/sel.SrcA) MixB(*verifsk/sel.SrcA)")
 	}
 	var got []string
 	markers := map[string]bool{}
@@ -77,6 +82,22 @@ func C17Selection() {
 			if m.Name() == "FromSibling" || m.Name() == "Bee" {
 				vrt.AssertMsg("package-comment-is-no-method-doc", m.DocComment == nil || len(m.DocComment.List) == 0, m.Name())
 				vrt.AssertMsg("package-comment-notations-reach-no-method", !m.Opts.ShouldSkip("ID") && !m.Opts.Typecast, m.Name())
+			}
+		}
+		for _, m := range info.Methods {
+			// a method inherited from an unmarked interface of the SAME file comes with the doc comment
+			// and the notations it is declared with; the notations on that interface's own doc
+			// comment are not defaults of the converter interface that embeds it
+			if m.Name() == "MixA" || m.Name() == "MixB" {
+				gammaCast := strings.Contains(vrt.SlotText("sel", "S1"), ":typecast")
+				vrt.AssertMsg("embedded-interface-notations-are-no-defaults", m.Opts.Typecast == gammaCast && !m.Opts.ShouldSkip("V"), m.Name())
+			}
+			if m.Name() == "MixA" {
+				vrt.AssertMsg("inherited-method-keeps-its-doc-and-notations",
+					m.Opts.ShouldSkip("W") && m.DocComment != nil && len(m.DocComment.List) == 1 && strings.Contains(m.DocComment.List[0].Text, "MixA is converted"), m.Name())
+			}
+			if m.Name() == "MixB" {
+				vrt.AssertMsg("inherited-method-without-doc-has-none", !m.Opts.ShouldSkip("W") && (m.DocComment == nil || len(m.DocComment.List) == 0), m.Name())
 			}
 		}
 		vrt.Assert("marker-unique", !markers[info.Marker] && info.Marker != "")
